@@ -33,6 +33,15 @@ Theorem C04_completed_requests_written_once : forall find codec_ok decodable han
   = flat_map (frames_of find codec_ok decodable handler hmeta) order.
 Proof. exact completed_requests_written_once. Qed.
 
+(* a request refused by a pre-call plugin still gets exactly one answer (the plugin's text) and runs no handler *)
+Theorem C04_precall_refusal_answered_once_no_handler : forall find codec_ok decodable handler hmeta q t,
+  q_hb q = false -> (find (q_path q) (q_meth q) = TMethod \/ find (q_path q) (q_meth q) = TFunction) ->
+  handler (q_path q) (q_meth q) (q_args q) = HVeto t ->
+  snd (process find codec_ok decodable handler hmeta q) = [] /\
+  (q_oneway q = false -> codec_ok (q_ser q) = true -> decodable (q_ser q) (q_args q) = true ->
+   fst (process find codec_ok decodable handler hmeta q) = [err_resp q (XExact t)]).
+Proof. exact precall_refusal_runs_no_handler. Qed.
+
 Example C04_nonvacuous :
   let find := fun p m => if Nat.eqb p 1 then TMethod else TNoService in
   let handler := fun p m a => HReply (a * 10) in
@@ -47,3 +56,4 @@ Print Assumptions C04_one_way_no_response.
 Print Assumptions C04_heartbeat_echo.
 Print Assumptions C04_frames_answer_own_connection.
 Print Assumptions C04_completed_requests_written_once.
+Print Assumptions C04_precall_refusal_answered_once_no_handler.
